@@ -319,6 +319,11 @@ void Monitor::checkDraw(const bloch::verif::SimEvent& ev) {
     R.counters["real_draws_seen"]++;
     if (ev.r == lastRealDraw) {
         bool wasReset = lastRealOp == "reset";
+        if (wasReset && op == "measure")
+            R.violation("C02", "measure:draw-replayed",
+                        "this measurement drew " + bloch::verif::fmtDouble(ev.r) +
+                            ", the very number the preceding reset drew: its outcome is not an independent "
+                            "sample of the Born distribution");
         R.violation(wasReset ? "C04" : "C02",
                     std::string(wasReset ? "reset" : "measure") + ":draw-not-consumed",
                     "the random number " + bloch::verif::fmtDouble(ev.r) + " used by a " + lastRealOp +
